@@ -183,3 +183,40 @@ func Upper(s string) string { return ref.AsciiUpper(s) }
 func HasLetter(s string) bool {
 	return strings.IndexFunc(s, func(r rune) bool { return (r >= 'a' && r <= 'z') || (r >= 'A' && r <= 'Z') }) >= 0
 }
+
+// WrongConsts are final polymod constants other than BIP-173's 1 that related encodings use or that
+// an implementation could confuse with it: Bech32m (BIP-350), 0, all ones, 1 with one more bit.
+var WrongConsts = []uint32{0x2bc830a3, 0, 0x3fffffff, 2, 3, 0x2bc830a2, 1 << 29, 1<<29 | 1}
+
+// WrongConst draws an otherwise well-formed string whose checksum was computed for one of WrongConsts.
+func WrongConst(t *rapid.T) string {
+	_, hrp, syms := Valid(t, true, false)
+	c := WrongConsts[h.Pick(t, "wc", 6, 1, 1, 1, 1, 1, 1, 1)]
+	return ref.EncodeSymbolsConst(hrp, syms, c)
+}
+
+// StateHRP draws a human-readable part after which the checksum register is 0 (mostly) or 1.
+func StateHRP(t *rapid.T) string {
+	target := uint32(h.OneOf(t, "st", 0, 0, 0, 1))
+	for try := 0; ; try++ {
+		n := rapid.IntRange(0, 20).Draw(t, "spl")
+		prefix := ""
+		if n > 0 {
+			prefix = HRP(t, n)
+		}
+		if hrp, ok := ref.StateHRP(prefix, target); ok {
+			return hrp
+		}
+		if try > 50 {
+			return "a"
+		}
+	}
+}
+
+// ValidStateHRP draws a checksum-valid lower-case string over a StateHRP.
+func ValidStateHRP(t *rapid.T) (s, hrp string, syms []byte) {
+	hrp = StateHRP(t)
+	nb := rapid.IntRange(0, 30).Draw(t, "snb")
+	syms = ref.ToSymbols(rapid.SliceOfN(rapid.Byte(), nb, nb).Draw(t, "sdata"))
+	return ref.EncodeSymbols(hrp, syms), hrp, syms
+}
